@@ -54,3 +54,156 @@ PROPERTY_META["C07"] = {
     "outside": "nothing inside u16 x u16 (x u16)",
     "assumptions": COMMON_ASSUME,
 }
+
+# ---------------------------------------------------------------- C10
+TABLE["C10"] = [
+    H("c10_create", functions=["PokerCard::create", "CardRank::{bits,number,prime,shift8}", "CardSuit::binary_signature", "PokerCard::filter"],
+      domain="all 14 x 5 (CardRank, CardSuit) pairs incl. the blank members", bound="whole domain", draws="r:u8, s:u8"),
+    H("c10_constants_and_deck", functions=["CardNumber::* (52 constants)", "deck::POKER_DECK", "Deck::arr"],
+      domain="all 52 (rank, suit); all 52 deck indexes", bound="whole domain", draws="r:u8, s:u8, i:u8"),
+    H("c10_accessors", functions=["get_card_rank", "get_card_suit", "get_rank_bit", "get_rank_flag", "get_rank_prime", "get_suit_bit",
+                                 "get_suit_flag", "get_rank_char", "get_suit_char", "get_suit_letter", "is_blank", "as_u32",
+                                 "CardSuit::binary_signature"],
+      domain="all 52 cards, plus blank", bound="whole domain", draws="r:u8, s:u8"),
+    H("c10_filter", functions=["CardNumber::filter", "PokerCard::filter"], domain="every u32 word (2^32)", bound="whole input type", draws="w:u32"),
+]
+PROPERTY_META["C10"] = {
+    "claim": "constants, construction and deck equal the layout formula S1; accessors read the S1 fields; the filter passes exactly the 52 S1 words out of 2^32",
+    "outside": "nothing: every quantifier of the statement is covered symbolically",
+    "assumptions": COMMON_ASSUME + ["constant names are synthesised from rank/suit words (tools/gen_consts.py); rustc resolves them"],
+}
+
+# ---------------------------------------------------------------- C14
+TABLE["C14"] = [
+    H("c14_word_to_bit", functions=["BC64::from_ckc", "PokerCard::from_binary_card"], domain="every u32 word", bound="whole input type", draws="w:u32"),
+    H("c14_bit_to_word", functions=["PokerCard::from_binary_card", "BC64::from_ckc"], domain="every u64 value (2^64)", bound="whole input type", draws="b:u64"),
+    H("c14_constants", functions=["BC64::DECK", "52 BC64 card constants", "BC64::{ALL,OVERFLOW,BLANK}", "POKER_DECK"],
+      domain="all 52 cards; all 52 deck indexes", bound="whole domain", draws="r:u8, s:u8, i:u8"),
+]
+PROPERTY_META["C14"] = {
+    "claim": "word->bit is S1's deck-order bit for the 52 cards and empty otherwise (all u32); bit->word is the deck card for exactly the 52 single card bits and blank otherwise (all u64); both round trips",
+    "outside": "nothing",
+    "assumptions": COMMON_ASSUME,
+}
+
+# ---------------------------------------------------------------- C20
+TABLE["C20"] = [
+    H("c20_flags", functions=["flag_as_pair", "flag_as_trips", "flag_as_quads", "strip_multiples_flags", "all field accessors"],
+      domain="52 cards x 8 mark subsets x 52 unmarked cards", bound="whole domain", draws="r,s:u8, m:u8, r2,s2:u8"),
+    H("c20_any_word", functions=["flag_as_*", "strip_multiples_flags", "get_rank_prime", "get_rank_flag", "get_suit_flag"],
+      domain="every word with bits 29-31 clear x 8 mark subsets", bound="whole domain", draws="w:u32, m:u8"),
+]
+PROPERTY_META["C20"] = {
+    "claim": "marks touch only bits 29-31, accessors unchanged, idempotent, strip restores, marked > unmarked, quads > trips > pair",
+    "outside": "nothing",
+    "assumptions": COMMON_ASSUME,
+}
+
+WORDS = "arbitrary 32-bit words in every slot"
+
+# ---------------------------------------------------------------- C08
+TABLE["C08"] = [
+    H("c08_card_shift", functions=["<u32 as Shifty>::shift_suit", "PokerCard::next_suit", "get_card_rank", "get_card_suit", "create"],
+      domain="all 52 cards and blank", bound="whole domain", draws="r,s:u8"),
+] + [
+    H(f"c08_shift_{n}", functions=[f"<{n.capitalize()} as Shifty>::shift_suit"], domain=WORDS, bound="whole input type; unwind 9 (checker loop)",
+      draws="slots:u32*N") for n in ("two", "three", "four", "five", "six", "seven")
+] + [
+    H("c08_value_relabel_distinct_ranks", tier="thorough", solver="kissat", timeout=2400,
+      functions=["Five::hand_rank_value (real evaluator: or_rank_bits, is_flush, FLUSHES, UNIQUE_5)", "<Five as Shifty>::shift_suit"],
+      domain="five distinct cards with five distinct ranks, any slot order x all 24 suit bijections", bound="whole domain; unwind 14",
+      draws="(r,s)*5, p0..p3:u8"),
+    H("c08_value_shift_paired_sorted", tier="thorough", solver="kissat", timeout=2400,
+      functions=["Five::hand_rank_value (real evaluator incl. multiply_primes, find_in_products, PRODUCTS, VALUES)", "<Five as Shifty>::shift_suit"],
+      domain="five distinct cards with a repeated rank, slots in descending card order", bound="whole domain; unwind 14 (13-step binary search + 1)",
+      draws="(r,s)*5"),
+]
+PROPERTY_META["C08"] = {
+    "claim": "card shift is the 4-cycle S->H->D->C->S keeping rank, blank fixed; containers shift every slot (arbitrary words); "
+             "value invariance: real evaluator under all 24 relabellings on the table path and under shift on the product path (thorough); "
+             "six/seven under the S5 abstraction",
+    "outside": "value invariance of paired hands in unsorted slot order is covered only through C01 (value = ordinal of ranks+flush, which is suit-blind by construction)",
+    "assumptions": COMMON_ASSUME,
+}
+
+# ---------------------------------------------------------------- C11
+TABLE["C11"] = [
+    H("c11_card_order", functions=["integer comparison of card words"], domain="all 52 x 52 card pairs", bound="whole domain", draws="(r,s)*2"),
+] + [
+    H(f"c11_sort_{n}", functions=[f"<{n.capitalize()} as HandValidator>::sort", "sort_in_place", "core::slice::sort_unstable", "reverse"],
+      domain=WORDS, bound="whole input type; unwind 9 covers insertion sort on <= 7 elements", draws="slots:u32*N",
+      timeout=1200) for n in ("two", "three", "four", "five", "six", "seven")
+]
+PROPERTY_META["C11"] = {
+    "claim": "word order = (rank, suit) lexicographic with S>H>D>C, blank lowest; sort() equals a reference compare-exchange network slot by slot "
+             "for arbitrary words (so same multiset, non-increasing), idempotent, in-place form agrees",
+    "outside": "nothing",
+    "assumptions": COMMON_ASSUME,
+}
+
+# ---------------------------------------------------------------- C15
+TABLE["C15"] = [
+    H("c15_from_hands", functions=["BC64::from_two..from_seven", "BC64::from_ckc"], domain=WORDS + " (7 words, prefixes used for sizes 2..6)",
+      bound="whole input type", draws="slots:u32*7"),
+    H("c15_set_ops", functions=["fold_in", "has", "number_of_cards", "is_single_card", "BC64::is_valid", "as_u64"], domain="all pairs of u64",
+      bound="whole input type", draws="b,c:u64"),
+    H("c15_peel_step", functions=["<u64 as BC64>::peel"], domain="every u64 set (one step from an arbitrary state = every history)",
+      bound="unwind 53 covers the 52-entry deck scan", draws="b:u64"),
+    H("c15_peel_sequence", functions=["<u64 as BC64>::peel"], domain="every two-card set, four peels", bound="unwind 53", draws="b:u64"),
+]
+PROPERTY_META["C15"] = {
+    "claim": "constructors = OR of S1 bits of the real cards among the slots; union/subset/count/validity identities for all u64; peel is exact for every state",
+    "outside": "from_index over raw text is decided under the token-stream abstraction (C12 harness c12_bitset_parser)",
+    "assumptions": COMMON_ASSUME,
+}
+
+# ---------------------------------------------------------------- C16
+TABLE["C16"] = [
+    H("c16_two_from_bits", functions=["<Two as TryFrom<u64>>::try_from", "BC64::peel", "PokerCard::from_binary_card", "Two::is_valid", "BC64::from_two"],
+      domain="every u64", bound="unwind 53", draws="b:u64"),
+]
+PROPERTY_META["C16"] = {
+    "claim": "Ok exactly for two card bits, cards in deck order, round trip; the three error kinds by population count / overflow bits",
+    "outside": "nothing", "assumptions": COMMON_ASSUME,
+}
+
+# ---------------------------------------------------------------- C17
+TABLE["C17"] = [
+    H("c17_chen", functions=["Two::chen_formula (f32 arithmetic, max, ceil, cast)", "get_gap", "high_card", "is_connector", "is_pocket_pair",
+                            "is_suited", "is_suited_connector", "<Two as Shifty>::shift_suit", "Two::sort"],
+      domain="all 52 x 51 ordered pairs of distinct cards", bound="whole domain; unwind 4 (sort of 2)", draws="(r,s)*2"),
+    H("c17_points", functions=["PokerCard::get_chen_points"], domain="all 52 cards and blank", bound="whole domain", draws="r,s:u8"),
+]
+PROPERTY_META["C17"] = {
+    "claim": "score == Chen's formula evaluated in integer half-points with round-half-up; helpers per definition; symmetric; shift-invariant",
+    "outside": "nothing", "assumptions": COMMON_ASSUME + ["CBMC's IEEE-754 float model for f32 add/sub/mul/max/ceil/cast"],
+}
+
+# ---------------------------------------------------------------- C18
+TABLE["C18"] = [
+    H("c18_deck", functions=["Deck::get", "Deck::len", "POKER_DECK.arr"], domain="every usize index", bound="whole input type", draws="i:usize, j:usize"),
+    H("c18_presets", functions=["Two::{AA,AK,AKs,AKo,AQs,AQo}"], domain="all suit pairs (every described combination) and every table index",
+      bound="whole domain; unwind 18", draws="s1,s2:u8, i:u8"),
+    H("c18_slot_tables", functions=["Four::OMAHA_PERMUTATIONS", "Six::FIVE_CARD_PERMUTATIONS", "Seven::FIVE_CARD_PERMUTATIONS"],
+      domain="every strictly increasing in-range index tuple; every row", bound="whole domain; unwind 23", draws="a,b:u8, t0..t4:u8"),
+]
+PROPERTY_META["C18"] = {
+    "claim": "deck in S,H,D,C x A..2 order, each card once, blank for every index >= 52; preset tables = exactly the described combinations once each; slot tables complete, duplicate-free, increasing",
+    "outside": "nothing", "assumptions": COMMON_ASSUME,
+}
+
+# ---------------------------------------------------------------- C19
+TABLE["C19"] = [
+    H("c19_two_three_four", functions=["Two/Three/Four::{from, new, to_arr, first.., set_*, iter}"], domain=WORDS + ", any written slot, any written word",
+      bound="one step from an arbitrary container (covers every setter history); unwind 9", draws="a:u32*4, w:u32, k:u8"),
+    H("c19_five", functions=["Five::{from, new, to_arr, first..fifth, set_*, iter}"], domain=WORDS + ", any slot, any word", bound="one inductive step; unwind 9",
+      draws="a:u32*5, w:u32, k:u8"),
+    H("c19_six", functions=["Six::{from, from_1_and_2_and_3, to_arr, first..sixth, set_*, iter, five_from_permutation}"],
+      domain=WORDS + ", any slot, any word; all 6^5 index tuples", bound="one inductive step; unwind 9", draws="a:u32*6, w:u32, k:u8, p:u8*5"),
+    H("c19_seven", functions=["Seven::{from, new, to_arr, first..seventh, set_*, iter, five_from_permutation}"],
+      domain=WORDS + ", any slot, any word; all 7^5 index tuples", bound="one inductive step; unwind 9", draws="a:u32*7, w:u32, k:u8, p:u8*5"),
+]
+PROPERTY_META["C19"] = {
+    "claim": "constructors/readers/iteration/selection agree with a plain array; each of the 27 setters changes exactly its slot from any state",
+    "outside": "nothing: containers have no hidden state, so one step from an arbitrary state covers every history", "assumptions": COMMON_ASSUME,
+}
